@@ -39,8 +39,15 @@ Barrier = BarrierType()
 
 
 def _to_naive_utc_time(value: dt.datetime | None) -> dt.datetime | None:
-    # A naive value is interpreted as local time, which is what astimezone does.
-    return value.astimezone(dt.timezone.utc).replace(tzinfo=None) if value else value
+    if not value:
+        return value
+    try:
+        # A naive value is interpreted as local time, which is what astimezone does.
+        return value.astimezone(dt.timezone.utc).replace(tzinfo=None)
+    except (OverflowError, ValueError, OSError):
+        # Values at the edge of the representable range, such as datetime.min and datetime.max used as
+        # "always older" and "always newer", cannot be shifted. They order correctly as they are.
+        return value.replace(tzinfo=None)
 
 
 def _get_stale_scope(call: Call, registry: Registry) -> tuple:
